@@ -24,7 +24,7 @@ CLAIMS = {
                      'the real diff must have no covering entry when c1=c2=none and otherwise exactly one, of the right type, carrying exactly the reference c1 and c2 and the right new/lost flags; also for the swapped pair and for (A,A).', ref='6/C04'),
     'C05': dict(tech='well-formedness predicate (Obs.tla WellFormedMismatches) evaluated by TLC on the raw, un-abstracted ranges of every recorded list result',
                 text='Uniqueness of (src,dst), no self / ip-ip / empty entries, IP peers form a partition of 0.0.0.0-255.255.255.255 into single ranges, canonical port ranges, all-connections flag <=> three full ranges: '
-                     'checked by TLC on every list observation of NetworkPolicy and admin-policy worlds.', ref='6/C05'),
+                     'checked by TLC on every list observation of NetworkPolicy, admin-policy and Service/Ingress/Route worlds.', ref='6/C05'),
     'C06': dict(tech='TLA+ reference of exposure soundness over hypothetical pods (ExposureRef.tla: labels over the governing policies\' vocabulary + fresh, existing and new namespaces, single named-port declarations for egress); list --exposure runs (ExposedPeers() through the API, named ports through the verif shim) recorded for TLC-generated and seeded worlds and judged by TLC',
                 text='For every replayed NetworkPolicy world: the exposure run reports the same workload/IP connectivity as the plain run; protected flags <=> governed; every reported entry is realizable for every hypothetical pod satisfying its selectors (every pod for entire-cluster): Conc(entry, pod) is contained in what the workload\'s policies of that direction allow. The hypothetical-pod set is exhaustive for the world\'s selector vocabulary.', ref='6/C06'),
     'C07': dict(tech='TLA+ reference of exposure completeness over hypothetical pods (ExposureRef.tla, AllowedNonOmittable / Omittable); same recorded runs as C06, judged by TLC',
@@ -34,7 +34,7 @@ CLAIMS = {
                      'The layout dimension is explored systematically per world; Go map-iteration schedules are only sampled (exploration-level for that dimension).', ref='6/C08',
                 note=M1_NOTE + ' Map iteration orders are sampled, not enumerated. Selector internals (order of matchExpressions/values) are not permuted: the exposure report echoes selectors as written.'),
     'C09': dict(tech='Format / DiffFormat events: the tool\'s own output of every format is parsed back (package formats of the harness) and compared by TLC, as sets of canonical rows, with the API result of the same run and with every other format (Obs.tla FormatMismatches, DiffFormatMismatches)',
-                text='For every replayed world: rows(txt)=rows(json)=rows(csv)=rows(md)=rows(dot)=API relation for list (connections, exposure rows, IP rows repeated in exposure sections, unprotected lines), and rows(txt)=rows(csv)=rows(md)=API added/removed/changed entries with both connection values and workload annotations for diff; dot diff additionally unchanged edges and new/lost peer colouring.', ref='6/C09',
+                text='For every replayed world: rows(txt)=rows(json)=rows(csv)=rows(md)=rows(dot)=API relation for list (connections, exposure rows, the printed namespace/pod selectors of every exposure peer canonicalised and compared with the selectors of the API, IP rows repeated in exposure sections, unprotected lines), and rows(txt)=rows(csv)=rows(md)=API added/removed/changed entries with both connection values and workload annotations for diff; dot diff additionally unchanged edges and new/lost peer colouring.', ref='6/C09',
                 note=M1_NOTE + ' The five list parsers and four diff parsers in /verif/harness/formats are trusted (independent of the tool\'s formatting code).'),
     'C10': dict(tech='TLA+ reference of Ingress/Route -> Service -> workload -> TCP container ports, intersected with the policy reference for a hypothetical unlabeled pod in an unknown namespace (IngressRef.tla); TLC behaviours with AddService/AddIngress/AddRoute edits replayed on the real list command; trace validation',
                 text='The {ingress-controller} => W lines and blocked-backend warnings of every replayed state (Services with named/numbered ports and targetPorts, Ingress default/rule backends by number or name, Routes with to/alternateBackends/targetPort, '
@@ -52,17 +52,17 @@ CLAIMS = {
                 note='Concrete junk per class comes from a small catalogue. A syntactically broken document inside a good multi-document file is excluded (the resource builder abandons the rest of that file; named ScanFileAbort in the model). Attribution to a file is demanded for list only.'),
     'C14': dict(tech='edge laws (Laws.tla) attached to Cluster.tla actions: TLC checks them on the reference (LawsCheck) and ReplayTrace asserts them on the two real reports of every edge',
                 text='Additivity, locality and re-spelling invariance asserted oracle-free on pairs of real reports for every AddRule/AddPolicy/Respell*/Split* edge of TLC-generated behaviours; the laws themselves are TLC-checked consequences of the reference.', ref='6/C14'),
-    'C15': dict(tech='TLA+ model of the engine as current objects (EngineModel.tla) + history generator (Engine.tla: TLC random walks and exhaustive short histories) replayed on a real eval.PolicyEngine; recorded histories validated by TLC (EngineTrace.tla) against the model and against a fresh engine',
+    'C15': dict(tech='TLA+ model of the engine as current objects (EngineModel.tla) + history generator (Engine.tla: TLC random walks and exhaustive short histories) replayed on a real eval.PolicyEngine; recorded histories validated by TLC (EngineTrace.tla) against the model and against a fresh engine; design layer CacheDesign.tla (memoisation + invalidation as the code does them) model-checked for cache coherence, bound to the code by Peek events (every memoised verdict read through the hook VerifCachePeek after every operation)',
                 text='Every CheckIfAllowed reply after every update of every explored history equals (a) the reference semantics on the current abstract objects and (b) the reply of a fresh engine built from the same objects; '
-                     'operation outcomes (ok/error/no crash) equal the model; all histories of 3 (quick) / 4 (thorough) operations over a 13-operation catalogue after a cache-warming prefix are enumerated exhaustively, '
+                     'every memoised verdict found in the real cache after every operation equals the reference on the current objects (CacheCoherent); operation outcomes (ok/error/no crash) equal the model; all histories of 3 (quick) / 4 (thorough) operations over a 20-operation catalogue (delete + re-insert with other content for every kind, pod update re-declaring a named port, sibling pod with another template) after a cache-warming prefix are enumerated exhaustively, '
                      'long random walks and seeded random histories over a larger universe are sampled.', ref='6/C15',
-                note='Trusted: TLC, Json module, EngineModel.tla as the reading of "current objects"; hook VerifSnapshot (read-only) for cache statistics and the order of sortedAdminNetpols. LRU eviction and goroutine-concurrent use are out of scope.'),
+                note='Trusted: TLC, Json module, EngineModel.tla as the reading of "current objects"; hooks VerifSnapshot (read-only: cache statistics, order of sortedAdminNetpols) and VerifCachePeek (read-only look-up of a memoised verdict). LRU eviction and goroutine-concurrent use are out of scope.'),
     'C18': dict(cat='exploration', tech='configuration space enumerated exhaustively by TLC (CliSpace.tla); each configuration run through the built k8snetpolicy binary and through the library calls named in the property; outcomes validated by TLC (CliTrace.tla)',
                 text='For every configuration (command x -o format incl. invalid and absent x --exposure x --focusworkload x --fail x -q/-v x -f x directory kinds good/junk/severe/fatal/empty/ingress/admin/missing [x second directory]) on seeded directory sets: '
                      'stdout hash = hash of the library string, -f file = stdout, exit status != 0 <=> library error, ConnlistFromResourceInfos(scanned infos) = ConnlistFromDirPath. Exhaustive over the enumerated flag space; directories are samples.', ref='6/C18',
                 note='Both sides of every comparison are real code; the specification supplies the configuration space and the acceptance relation. Directory contents are seeded samples of each kind.'),
     'C19': dict(tech='finite conflict space enumerated exhaustively by TLC (Conflict.tla), materialised and run through list and diff (dir1/dir2), outcomes validated by TLC (ConflictTrace.tla); design argument for detection inside the sort callback model-checked (SortConflict.tla)',
-                text='Every case of the enumerated space (8 conflict kinds x sizes x document positions of the conflicting resources x 5 arrangement families of the other priorities, plus control cases without conflict) must be rejected by list and by diff (either side) '
+                text='Every case of the enumerated space (8 conflict kinds x sizes x document positions of the conflicting resources x 5 arrangement families of the other priorities; for pods of one owner with different labels also 0..3 further agreeing pods and whether the deviating pod comes first; plus control cases without conflict) must be rejected by list and by diff (either side) '
                      'with an error of the right class that names a conflicting resource, a fatal entry and no report; controls must pass. Exhaustive over the enumerated space only.', ref='6/C19',
                 note='Trusted: TLC, Json module; the mapping of error texts to conflict classes in the harness (substring of the tool\'s own error constants). Sizes and arrangement families outside the enumerated space are not covered.'),
     'C16': dict(tech='Focus events (list with WithFocusWorkload for every workload name, namespace/name, shared names, absent names, ingress-controller) validated by TLC against the filter of the unfocused report of the same world (Obs.tla FocusMismatches)',
